@@ -262,12 +262,7 @@ func mergeConfigs(ctx context.Context, src Config, dest *Config) {
 		srcFieldValue := srcValue.Field(i)
 		destFieldValue := destValue.Elem().Field(i)
 
-		if srcFieldValue.Kind() == reflect.Map {
-			srcMap, ok := srcFieldValue.Interface().(map[string]any)
-			if !ok {
-				log.Debug().Msg("field value is not `any`, skipping merge")
-				continue
-			}
+		if srcMap, ok := srcFieldValue.Interface().(map[string]any); ok {
 			destMap, ok := destFieldValue.Interface().(map[string]any)
 			if !ok {
 				log.Debug().Msg("dest map value is not `any`, skipping")
